@@ -56,6 +56,19 @@ type fakeChain struct {
 	filterCalls  int
 	filterFailAt int // the n-th FilterBlocks call fails (once); 0 = never
 	rescans      int
+
+	// holdCh != nil: the next Rescan call is held in flight — its RelevantTx notifications are delivered, then the
+	// rescan is announced on holdCh and RescanFinished is withheld until finishHeld (a rescan from an early block
+	// takes minutes to hours on a real chain; blocks keep arriving meanwhile)
+	holdCh chan *heldRescan
+	held   *heldRescan
+}
+
+// heldRescan is a rescan whose RescanFinished notification the backend has not sent yet.
+type heldRescan struct {
+	tip     *fblock       // the best-chain tip when Rescan was called (what RescanFinished will report)
+	release chan struct{} // closed by finishHeld
+	done    chan struct{} // closed once RescanFinished was handed to the wallet (or the connection went away)
 }
 
 // conn is one "connection" of a wallet to the backend: a notification channel and its shutdown signal.
@@ -96,6 +109,7 @@ func (fc *fakeChain) resetConn() {
 	fc.mu.Lock()
 	defer fc.mu.Unlock()
 	fc.c = &conn{ntfn: make(chan interface{}), quit: make(chan struct{}), rescanDone: make(chan struct{}, 16)}
+	fc.held, fc.holdCh = nil, nil
 }
 
 func (fc *fakeChain) conn() *conn {
@@ -306,6 +320,13 @@ func (fc *fakeChain) Rescan(start *chainhash.Hash, addrs []btcutil.Address, outp
 	c := fc.c
 	hook := fc.beforeFinish
 	fc.beforeFinish = nil
+	var held *heldRescan
+	holdCh := fc.holdCh
+	if holdCh != nil {
+		held = &heldRescan{tip: tip, release: make(chan struct{}), done: make(chan struct{})}
+		fc.holdCh = nil
+		fc.held = held
+	}
 	fc.mu.Unlock()
 
 	watchA := map[string]struct{}{}
@@ -317,7 +338,13 @@ func (fc *fakeChain) Rescan(start *chainhash.Hash, addrs []btcutil.Address, outp
 		watchO[op] = struct{}{}
 	}
 	go func() {
-		defer func() { c.rescanDone <- struct{}{} }()
+		defer func() {
+			if held != nil {
+				close(held.done)
+				return
+			}
+			c.rescanDone <- struct{}{}
+		}()
 		for _, b := range blocks {
 			m := b.meta()
 			for _, tx := range b.txs {
@@ -352,6 +379,14 @@ func (fc *fakeChain) Rescan(start *chainhash.Hash, addrs []btcutil.Address, outp
 				}
 			}
 		}
+		if held != nil {
+			holdCh <- held
+			select {
+			case <-held.release:
+			case <-c.quit:
+				return
+			}
+		}
 		if hook != nil {
 			hook(c)
 		}
@@ -359,6 +394,39 @@ func (fc *fakeChain) Rescan(start *chainhash.Hash, addrs []btcutil.Address, outp
 		c.send(&chain.RescanFinished{Hash: &h, Height: tip.height, Time: tip.hdr.Timestamp})
 	}()
 	return nil
+}
+
+// armHold makes the next Rescan call a held one and returns the channel on which it is announced (after its RelevantTx
+// notifications were handed to the wallet).
+func (fc *fakeChain) armHold() chan *heldRescan {
+	fc.mu.Lock()
+	defer fc.mu.Unlock()
+	fc.holdCh = make(chan *heldRescan, 1)
+	return fc.holdCh
+}
+
+func (fc *fakeChain) disarmHold() {
+	fc.mu.Lock()
+	defer fc.mu.Unlock()
+	fc.holdCh = nil
+}
+
+// finishHeld lets the held rescan report RescanFinished and waits until the wallet has fully processed it.
+func (fc *fakeChain) finishHeld() bool {
+	fc.mu.Lock()
+	h := fc.held
+	fc.held = nil
+	fc.mu.Unlock()
+	if h == nil {
+		return false
+	}
+	close(h.release)
+	select {
+	case <-h.done:
+	case <-time.After(20 * time.Second):
+		return false
+	}
+	return fc.send(sentinel{})
 }
 
 func (fc *fakeChain) NotifyReceived([]btcutil.Address) error { return nil }
